@@ -164,4 +164,27 @@ PROPS = {
             "finite coordinates of moderate size (|x| <= 1e4 in the generator): f32 overflow of squared lengths is outside the theorems",
         ],
     },
+    "C18": {
+        "suites": [{"name": "wav", "quick": 4000, "thorough": 40000, "twin_first": True}],
+        "level_text": "Lean theorems, for all inputs: the Lean PCM-WAV encoder and the model of kira's decoding path (Symphonia RIFF/WAVE "
+                      "demuxer + PCM codec as modelled, kira's sample conversion, frame assembly and packet loop) are inverse for 8/16/24/32-bit "
+                      "integer and 32/64-bit float, 1..26 channels, every non-zero rate and length (header, sample codes, frames, count, rate; mono "
+                      "duplicated, stereo paired, >2 channels rejected); conversion spec exact/in [-1,1)/monotone; DecodeScheduler::frame_at_index, "
+                      "seek_to and run return the right source frame for EVERY decoder meeting the Decoder contract (any packet sizes, any seek "
+                      "granularity) after any call history, the modelled WAV decoder meets the contract, hence streaming an encoded WAV equals "
+                      "loading it from any start and after any seeks; the static packet loop stops at the first EOF/error as coded. The same "
+                      "definitions run as the twin: the bytes kira loads are the bytes the Lean encoder printed, and frames/count/rate/error kinds "
+                      "of StaticSoundData::from_cursor and of the hook-stepped StreamingSoundData agree bit-for-bit, also on single-point mutations",
+        "level_note": "partial: Symphonia's probe, demuxers and codecs are third-party - modelled for canonical PCM WAV only and exercised, not "
+                      "verified; 'malformed files never panic/hang/invent samples' is a mutation TEST of that third-party code (oracles sym_*, "
+                      "no_panic, watchdog), not a theorem; compressed shipped assets (Ogg Vorbis) are covered by an implementation-side oracle "
+                      "(static vs streaming with seeks), which finds the recorded seek defect; conversion theorems are over the reals (the f32 "
+                      "rounding of i32 and f64 samples is checked bit-for-bit by the twin only)",
+        "assumptions": [
+            "Symphonia 0.5.5 behaves as modelled in Model/Wav.lean on RIFF/WAVE input (validated on every run by the correspondence, not proved)",
+            "WAV size fields are 32-bit: 36 + data length (+ pad) < 2^32; channels*bytes < 2^16; channels <= 26 (Symphonia's channel mask); rate != 0",
+            "seek targets lie inside the audio (the WAV reader rejects ts > n_frames with SeekError, which kira reports as an error)",
+            "files not starting with 'RIFF' fall through to Symphonia's other format readers: no model prediction (robustness oracles only)",
+        ],
+    },
 }
